@@ -122,13 +122,13 @@ Proof.
 Qed.
 
 (* -------------------------------------------------------------- dialling *)
-Lemma dial_all_spec fails : forall es n nps lg failed,
-  dial_all fails n es = (nps, lg, failed) ->
+Lemma dial_all_spec fails readys : forall es n nps lg failed,
+  dial_all fails readys n es = (nps, lg, failed) ->
   failed = existsb (fun e => memN e fails) es /\
   (failed = false ->
      map fst nps = es /\ map fst lg = es /\ forallb (fun d => snd d) lg = true /\
      forall e p, In (e, p) nps ->
-       p_open p = true /\ p_mon p = true /\ p_ready p = false /\
+       p_open p = true /\ p_mon p = true /\ p_ready p = memN e readys /\
        (NoDup es -> exists k, index_of e es = Some k /\ p_id p = (n + N.of_nat k)%N)).
 Proof.
   induction es as [|x r IH]; intros n nps lg failed E; cbn in E.
@@ -136,7 +136,7 @@ Proof.
     split; [reflexivity|]. split; [reflexivity|]. split; [reflexivity|]. intros e p [].
   - cbn [existsb]. destruct (memN x fails) eqn:Mx.
     + injection E as <- <- <-. split; auto. discriminate.
-    + destruct (dial_all fails (n + 1)%N r) as [[ps l'] f] eqn:D.
+    + destruct (dial_all fails readys (n + 1)%N r) as [[ps l'] f] eqn:D.
       injection E as <- <- <-. destruct (IH _ _ _ _ D) as [Hf Hs].
       split; [exact Hf|]. intros F. destruct (Hs F) as [M1 [M2 [M3 M4]]].
       cbn [map fst forallb snd]. rewrite M1, M2, M3.
@@ -153,10 +153,10 @@ Proof.
         rewrite Ik. cbn [option_map]. split; auto. rewrite Idp. rewrite Nat2N.inj_succ. lia.
 Qed.
 
-Lemma dial_all_log_length fails : forall es n nps lg failed,
-  dial_all fails n es = (nps, lg, failed) -> failed = false -> length lg = length es.
+Lemma dial_all_log_length fails readys : forall es n nps lg failed,
+  dial_all fails readys n es = (nps, lg, failed) -> failed = false -> length lg = length es.
 Proof.
-  intros es n nps lg failed E F. destruct (dial_all_spec fails es n nps lg failed E) as [_ H].
+  intros es n nps lg failed E F. destruct (dial_all_spec fails readys es n nps lg failed E) as [_ H].
   destruct (H F) as [_ [M _]]. rewrite <- M. rewrite map_length. reflexivity.
 Qed.
 
@@ -191,8 +191,8 @@ Qed.
 
 (* ------------------------------------------------------- a failed update *)
 (* failed_update_identity: a rejected update changes nothing but the dial counter *)
-Lemma failed_update_identity_proof s o fails oracle s' out :
-  gupdate s o fails oracle = (s', out) -> og_err out <> 0 ->
+Lemma failed_update_identity_proof s o fails oracle readys s' out :
+  gupdate s o fails oracle readys = (s', out) -> og_err out <> 0 ->
   g_mes s' = g_mes s /\ g_pools s' = g_pools s /\ g_default s' = g_default s /\
   g_closed s' = g_closed s /\ gobserve s' = gobserve s /\
   g_dials s' = (g_dials s + N.of_nat (length (og_dials out)))%N.
@@ -200,21 +200,21 @@ Proof.
   unfold gupdate. intros E Herr.
   destruct (negb (check_opts o =? 0)).
   - injection E as <- <-. cbn. rewrite N.add_0_r. repeat split; reflexivity.
-  - destruct (dial_all fails (g_dials s) _) as [[nps lg] failed].
+  - destruct (dial_all fails readys (g_dials s) _) as [[nps lg] failed].
     destruct failed.
     + injection E as <- <-. cbn. repeat split; reflexivity.
     + injection E as <- <-. cbn in Herr. congruence.
 Qed.
 
-Lemma update_err_spec s o fails oracle s' out :
-  gupdate s o fails oracle = (s', out) ->
+Lemma update_err_spec s o fails oracle readys s' out :
+  gupdate s o fails oracle readys = (s', out) ->
   og_err out = expected_err (gobserve s) o fails /\ og_call out = 0.
 Proof.
   unfold gupdate, expected_err. intros E.
   destruct (negb (check_opts o =? 0)) eqn:C.
   - injection E as <- <-. cbn. auto.
-  - destruct (dial_all fails (g_dials s) _) as [[nps lg] failed] eqn:D.
-    destruct (dial_all_spec _ _ _ _ _ _ D) as [Hf _].
+  - destruct (dial_all fails readys (g_dials s) _) as [[nps lg] failed] eqn:D.
+    destruct (dial_all_spec _ _ _ _ _ _ _ D) as [Hf _].
     set (missing := filter (fun e => negb (gmem (g_pools s) e)) (mentioned o)) in *.
     assert (Hex : failed =
               existsb (fun e => negb (memN e (pool_eps (gobserve s))) && memN e fails) (mentioned o)).
@@ -271,8 +271,8 @@ Proof.
   rewrite gmem_memN in GM. apply memN_In. exact GM.
 Qed.
 
-Lemma gupdate_ok s o fails oracle s' out :
-  GInv s -> gupdate s o fails oracle = (s', out) -> og_err out = 0 ->
+Lemma gupdate_ok s o fails oracle readys s' out :
+  GInv s -> gupdate s o fails oracle readys = (s', out) -> og_err out = 0 ->
   GInv s' /\ Created s' /\ UpdOK s o s' out.
 Proof.
   intros GI E Herr. unfold gupdate in E.
@@ -280,12 +280,12 @@ Proof.
   2:{ injection E as <- <-. cbn in Herr. apply Z.eqb_neq in C. contradiction. }
   apply Z.eqb_eq in C. destruct (check_opts_0 o C) as [NDn [Hdef Hok]].
   set (missing := filter (fun e => negb (gmem (g_pools s) e)) (mentioned o)) in *.
-  destruct (dial_all fails (g_dials s) (dial_order oracle missing)) as [[nps lg] failed] eqn:D.
+  destruct (dial_all fails readys (g_dials s) (dial_order oracle missing)) as [[nps lg] failed] eqn:D.
   destruct failed; [injection E as <- <-; cbn in Herr; discriminate|].
   injection E as <- <-.
   assert (NDm : NoDup missing) by (apply NoDup_filter, mentioned_NoDup).
   destruct (dial_order_spec oracle missing NDm) as [NDo DO].
-  destruct (dial_all_spec _ _ _ _ _ _ D) as [_ DS]. destruct (DS eq_refl) as [M1 [M2 [M3 M4]]].
+  destruct (dial_all_spec _ _ _ _ _ _ _ D) as [_ DS]. destruct (DS eq_refl) as [M1 [M2 [M3 M4]]].
   clear DS.
   set (allp := g_pools s ++ nps) in *.
   set (pools := filter (fun ep => memN (fst ep) (mentioned o)) allp) in *.
@@ -461,12 +461,12 @@ Proof.
 Qed.
 
 (* failed_new_releases_all *)
-Lemma failed_new_releases_all_proof o fails oracle s1 out :
-  gupdate (ginit o) o fails oracle = (s1, out) -> og_err out <> 0 ->
+Lemma failed_new_releases_all_proof o fails oracle readys s1 out :
+  gupdate (ginit o) o fails oracle readys = (s1, out) -> og_err out <> 0 ->
   g_mes s1 = [] /\ g_pools s1 = [] /\ ob_open (gobserve s1) = [] /\ ob_census (gobserve s1) = 0 /\
   gobs_same (gobserve s1) obs_none = true.
 Proof.
-  intros E Herr. destruct (failed_update_identity_proof _ _ _ _ _ _ E Herr) as [Hm [Hp [_ [_ [Ho _]]]]].
+  intros E Herr. destruct (failed_update_identity_proof _ _ _ _ _ _ _ E Herr) as [Hm [Hp [_ [_ [Ho _]]]]].
   cbn in Hm, Hp. rewrite Ho. repeat split; auto.
 Qed.
 
